@@ -36,7 +36,7 @@ from . import e2_formula as F
 from . import op4_model as M
 from .core import Unsupported
 from .e1_srcmodel import dotted
-from .e2_eval import AutoEvaluator, Unknown, is_unknown, need, _assigned_names
+from .e2_eval import AutoEvaluator, Unknown, is_unknown, need
 
 FILE = F.sym("self._fileh")
 ZERO = F.const(0)
